@@ -14,6 +14,7 @@
 using namespace vp;
 
 static Stats st;
+static volatile double g_sink;
 
 template<class W>
 W run_algo(const std::string &a, BG<W> &bg, std::size_t k, std::list<std::list<typename BG<W>::Edge>> &cycles) {
@@ -51,10 +52,17 @@ Verdict check_approx(const TGraph &t, const std::string &algo, std::size_t k, co
         double sum_after = 0;
         for (auto &c : cycles) {
             std::vector<int> v;
-            for (auto &e : c) { int i = bg.idx(e); v.push_back(i); if (i >= 0) sum_after += (double) wm[e]; }
+            for (auto &e : c) {
+                int i = bg.idx(e); v.push_back(i);
+#ifdef VP_SANITIZE
+                sum_after += (double) wm[e];       // every handed-back descriptor is used with the caller's map (ASan watches)
+#else
+                if (i >= 0) sum_after += (double) wm[e];
+#endif
+            }
             idx.push_back(v);
         }
-        (void) sum_after;
+        g_sink = sum_after;      // keep the loads alive
     }
     Verdict v = check_basis_shape(t, idx);
     if (!v.ok()) return v;
